@@ -123,12 +123,20 @@ def run_shard(params, rec):
     def instance_of(pattern, jokers, same):
         """an expression made by filling the jokers of @pattern: with one value per joker
         (@same) or with a fresh value per occurrence"""
+        def value_for(j):
+            # a joker is an ordinary identifier: the matched expression may mention it (a pattern matched
+            # against another pattern, or against itself)
+            if rng.random() < 0.25:
+                same_size = [x for x in jokers if x.size == j.size]
+                rec.count("target_mentions_joker")
+                return rng.choice(same_size)
+            return gen.expr(j.size, 1)
         if same:
-            return X.subst(pattern, dict((j, gen.expr(j.size, 1)) for j in jokers))
+            return X.subst(pattern, dict((j, value_for(j)) for j in jokers))
 
         def fill(p):
             if p in jokers:
-                return gen.expr(p.size, 1)
+                return value_for(p)
             ch = X.children(p)
             if not ch:
                 return p
@@ -344,6 +352,8 @@ def floors(tier, counters, evaluations):
             counters.get("target:sibling", 0), evaluations))
     if counters.get("match_with_bindings", 0) < 0.1 * evaluations:
         miss.append("fewer than 10% of the cases are matches that bind a joker")
+    if counters.get("target_mentions_joker", 0) < 0.01 * evaluations:
+        miss.append("fewer than 1% of the targets mention a joker identifier")
     for k in ["compose_extra_part", "compose_dropped_part", "op_extra_arg", "op_swapped_noncommutative",
               "op_name", "slice_bounds", "mem_size", "constant", "identifier", "cond_branches_swapped",
               "joker_filled_differently"]:
